@@ -2032,7 +2032,13 @@ func (self *Node) parseRaw(full bool) {
 		*self, e = parser.Parse()
 	}
 	if e != 0 {
-		*self = *newSyntaxError(parser.syntaxError(e))
+		if lock {
+			// Keep self.m: it is held here (the deferred unlock must find it) and other
+			// readers may be waiting on it. Publish the error node like any parsed node.
+			self.assign(*newSyntaxError(parser.syntaxError(e)))
+		} else {
+			*self = *newSyntaxError(parser.syntaxError(e))
+		}
 	}
 }
 
